@@ -321,7 +321,7 @@ class Ctx:
         self.cov["evaluations"] += nops
         self.cov["traces_validated_against_impl"] += nops - nm
         self.cov["distinct_nontrivial"] += int(rep.get("distinct_nontrivial", 0))
-        for s in rep.get("samples", [])[:4]:
+        for s in (rep.get("samples") or [])[:4]:
             if len(self.cov["samples"]) < 12:
                 self.cov["samples"].append(s)
         st = self.cov["stats"].setdefault(tag, {})
